@@ -273,7 +273,14 @@ pub fn real_login(i: &LoginInput) -> Result<(RealLogin, SrpServer, wow_srp::clie
 }
 
 fn real_login_inner(i: &LoginInput) -> Result<(RealLogin, SrpServer, wow_srp::client::SrpClient), LoginFail> {
-    let (ru, rp, tu, tp) = (ns(i.reg_user), ns(i.reg_pass), ns(i.typed_user), ns(i.typed_pass));
+    // the account is registered from &str, the client holds its text in Strings / parses it: the property speaks of the
+    // credentials, not of one constructor, so the two sides deliberately use different ones (all alphabet credentials are
+    // permitted ones by the reference rule: a refusal here is the library's)
+    let refuse = |e: wow_srp::error::NormalizedStringError| LoginFail::Refused("permitted-credential-refused", e.to_string());
+    let ru = NormalizedString::new(i.reg_user).map_err(refuse)?;
+    let rp = NormalizedString::new(i.reg_pass).map_err(refuse)?;
+    let tu = NormalizedString::from_string(i.typed_user.to_string()).map_err(refuse)?;
+    let tp = <NormalizedString as std::convert::TryFrom<String>>::try_from(i.typed_pass.to_string()).map_err(refuse)?;
     let verifier = catch(|| SrpVerifier::from_username_and_password(ru, rp)).map_err(|m| LoginFail::Panic("register", m))?;
     let username_out = verifier.username().to_string();
     let v = *verifier.password_verifier();
